@@ -122,6 +122,10 @@ struct Config {
 };
 extern Config g_cfg;
 
+// "Stale read" amplifier (strategy hunt): words that work like a version / mask / epoch.  A fiber that has just loaded
+// such a word is, now and then, held back right after the load until another fiber writes the word (plus a few points),
+// so that the value it carries is stale when it goes on to use it.
+void stale_watch(const void* p, size_t n);
 // TSO regions (DESIGN 3.5)
 void tso_register(const void* p, size_t n);
 void tso_unregister(const void* p, size_t n);
